@@ -167,6 +167,8 @@ def decode : List Item → Except Err Msg
 def decodeInts (xs : List Int) : Except Err Msg := decode (xs.map .int)
 def decodeNats (xs : List Nat) : Except Err Msg := decode (xs.map (fun x => Item.int (Int.ofNat x)))
 
+def inByteRange (d : Int) : Bool := decide (0 ≤ d) && decide (d ≤ 127)
+
 /-- Independent grammar of one complete MIDI 1.0 message over integers. -/
 def wellFormed : List Int → Bool
   | [] => false
@@ -174,10 +176,10 @@ def wellFormed : List Int → Bool
     if s < 0 then false else
     if s = 0xF0 then
       match ds.getLast? with
-      | some 0xF7 => ds.dropLast.all (fun d => 0 ≤ d && d ≤ 127)
+      | some 0xF7 => ds.dropLast.all inByteRange
       | _ => false
     else match specLen s.toNat with
-      | some n => ds.length + 1 == n && ds.all (fun d => 0 ≤ d && d ≤ 127)
+      | some n => ds.length + 1 == n && ds.all inByteRange
       | none => false
 
 /-! ### hex -/
